@@ -51,6 +51,10 @@
 #include "acf-can-common.h"
 
 #define MAX_PDU_SIZE                1500
+#ifdef COVESA_OPEN1722_VERIF_MAX_PDU_SIZE    /* verification hook: scaled-down receive buffer */
+#undef MAX_PDU_SIZE
+#define MAX_PDU_SIZE                COVESA_OPEN1722_VERIF_MAX_PDU_SIZE
+#endif
 #define ARGPARSE_CAN_FD_OPTION      500
 #define ARGPARSE_CAN_IF_OPTION      501
 
